@@ -621,7 +621,7 @@ def _unpack_with_annotated_serialization_strategy(
     )
     overridden_fn = f"__{spec.field_ctx.name}_deserialize_{random_hex()}"
     setattr(spec.attrs, overridden_fn, strategy.deserialize)
-    new_spec = spec.copy(type=value_type)
+    new_spec = spec.copy(type=value_type, annotated_type=None)
     field_metadata = new_spec.field_ctx.metadata
     if field_metadata.get("serialization_strategy") is strategy:
         new_spec.field_ctx.metadata = {
